@@ -168,10 +168,38 @@ def make_unreachable_case(rng):
     return {"cluster": spec, "ops": ops, "meta": {"path": "client", "compression": 0, "family": "unreachable_broker"}}
 
 
+def make_deleted_topic_case(rng):
+    """a topic the client knew is deleted in the cluster; after a reload by name (answered with the topic error and no partitions) a
+    batch naming it is refused locally and nothing is sent, also when the rest of the batch is fine"""
+    spec = {"brokers": brokers(2), "topics": {b"alpha": [1, 2]}, "logs": {}}
+    hs = [host_of(spec, n) for n in sorted(spec["brokers"])]
+    ser = Serial()
+    stale = {"brokers": [{"node_id": n, "host": h, "port": p} for n, (h, p) in sorted(spec["brokers"].items())],
+             "topics": [{"error": 0, "topic": t, "partitions": [{"error": 0, "id": i, "leader": l, "replicas": [], "isr": []} for i, l in enumerate(ls)]}
+                        for t, ls in (("alpha", [1, 2]), ("gone", [2, 1]))]}
+    for t in stale["topics"]:
+        t["topic"] = t["topic"].encode()
+    acks = rng.choice([1, -1, 0])
+    path = rng.choice(["client", "producer"])
+    ops = [T("client_new", [hs]), {"op": T("load_metadata_all"), "mutate": {"kind": "body", "api": "metadata", "body": stale}},
+           T("set_retry_max_attempts", [3]), T("load_metadata", [[b"gone"]])]
+    batch = [(b"alpha", 0), (b"gone", rng.choice([0, 1])), (b"alpha", 1)]
+    rng.shuffle(batch)
+    if path == "client":
+        ops.append(T("produce_messages", [acks, 1, 0, [pm(t, p, None, ser.value(rng)) for (t, p) in batch]]))
+        ops.append(T("produce_messages", [acks, 1, 0, [pm(b"alpha", 0, None, ser.value(rng))]]))
+    else:
+        ops.append(T("producer_build", [T("from_client"), [T("with_required_acks", [acks])]]))
+        ops.append(T("send_all", [[T("r", [t, p if rng.random() < 0.7 else -1, b"", ser.value(rng)]) for (t, p) in batch]]))
+        ops.append(T("send_all", [[T("r", [b"alpha", 1, b"", ser.value(rng)])]]))
+    return {"cluster": spec, "ops": ops, "meta": {"path": path, "compression": 0, "family": "deleted_topic"}}
+
+
 def gen(rng, tier):
     n = 450 if tier == "quick" else 15000
     return ([make_case(rng, "client") for _ in range(n)] + [make_case(rng, "producer") for _ in range(n)] +
-            [make_unreachable_case(rng) for _ in range(16 if tier == "quick" else 300)])
+            [make_unreachable_case(rng) for _ in range(16 if tier == "quick" else 300)] +
+            [make_deleted_topic_case(rng) for _ in range(16 if tier == "quick" else 300)])
 
 
 # ---- oracle ------------------------------------------------------------------------------------------------------------
